@@ -183,6 +183,15 @@ def twin_qualifier(P, trace):
     return "step_limit_reached" if step_limit_reached(P, trace) else ""
 
 
+def qualify(P, clause, ev):
+    """Known-finding key (DESIGN §5 #11): on the step-limit step (number 2*num_customers) both reward functions
+    replace the step reward by a worst-case estimate, so the dense return keeps the distance already paid and the
+    sparse return does not; it also hits an episode that completes on that very step."""
+    if clause == "dense_equals_sparse" and ev is not None and ev.t >= 2 * P.params["customers"]:
+        return "step_limit_reached"
+    return ""
+
+
 def objective(P, trace):
     """-(total distance + time penalties) of an episode completed before the step limit (docs: "the negative of
     the length of the path chosen by all the agents combined. Time penalties are added ..."); None otherwise."""
